@@ -69,6 +69,9 @@ type c01hPlan struct {
 	PartIDs   [2]int32
 	SegFaults []vfkit.FaultKind
 	IdxFaults []vfkit.FaultKind
+	// PubFaults: the k-th end-offset update of phase 1 fails without effect (metadata store
+	// write error); the broker only logs it
+	PubFaults []bool
 	Picks     []int
 }
 
@@ -119,6 +122,12 @@ func c01hDraw(t *rapid.T) c01hPlan {
 	p.SegFaults = rapid.SliceOfN(fk, 0, 8).Draw(t, "segfaults")
 	p.IdxFaults = rapid.SliceOfN(fk, 0, 8).Draw(t, "idxfaults")
 	p.Picks = rapid.SliceOfN(rapid.IntRange(0, 5), 0, 70).Draw(t, "picks")
+	switch rapid.IntRange(0, 5).Draw(t, "pubfaultmode") {
+	case 0:
+		p.PubFaults = rapid.SliceOfN(rapid.Bool(), 1, 8).Draw(t, "pubfaults")
+	case 1:
+		p.PubFaults = []bool{true, true, true, true, true, true, true, true, true, true, true, true} // the store is down for the whole phase
+	}
 	p.PartIDs = [2]int32{0, 1}
 	if rapid.IntRange(0, 2).Draw(t, "prefixparts") == 0 {
 		p.PartIDs = [2]int32{1, 10}
@@ -143,6 +152,8 @@ type c01hStore struct {
 	gated *bool
 	dead  *bool
 	mu    *sync.Mutex
+	// pubFault, if set, decides whether this end-offset update fails without effect
+	pubFault func() bool
 }
 
 func (s *c01hStore) isDead() bool { s.mu.Lock(); defer s.mu.Unlock(); return *s.dead }
@@ -153,6 +164,9 @@ func (s *c01hStore) UpdateOffsets(ctx context.Context, topic string, partition i
 	}
 	if s.isDead() {
 		return fmt.Errorf("vf: process is dead")
+	}
+	if s.pubFault != nil && s.pubFault() {
+		return fmt.Errorf("vf: injected metadata store write failure")
 	}
 	return s.Store.UpdateOffsets(ctx, topic, partition, lastOffset)
 }
@@ -183,6 +197,7 @@ type c01hOut struct {
 	Concurrent    bool
 	PubParked     bool
 	Crashed       bool
+	PubFailed     bool // an end-offset update failed in phase 1
 	ColdConc      bool // two requests in flight while a cold partition's S3 listing was parked
 	AutoRace      bool // create-topic parked with another request in flight
 	Fetches       int
@@ -300,7 +315,21 @@ func c01hRun(t *testing.T, p c01hPlan) (out c01hOut) {
 		} else {
 			inner = vfStoreWithTopics(map[string]int32{"orders": p.PartIDs[1] + 1})
 		}
+		pubN := 0
 		store := &c01hStore{Store: inner, sched: sched, gated: &gated, dead: &dead, mu: &mu}
+		store.pubFault = func() bool {
+			mu.Lock()
+			defer mu.Unlock()
+			if !faultsOn {
+				return false
+			}
+			pubN++
+			if pubN-1 < len(p.PubFaults) && p.PubFaults[pubN-1] {
+				out.PubFailed = true
+				return true
+			}
+			return false
+		}
 		opts := vfHandlerOpts{SegmentBytes: p.SegBytes, ReadAhead: 0, NoS3Backpressure: true}
 		if p.AutoCreate {
 			os.Setenv("KAFSCALE_AUTO_CREATE_PARTITIONS", fmt.Sprint(p.PartIDs[1]+1))
@@ -598,7 +627,7 @@ func c01hCheck(t *testing.T, focus string) {
 		for name, on := range map[string]bool{"upload-failed": r.Failed, "failure-with-2+-requests-in-flight": r.Concurrent,
 			"end-offset-update-parked-with-concurrent-request": r.PubParked, "has-acks": len(r.Acks) > 0, "process-died-in-phase-1": r.Crashed,
 			"cold-partition-listing-parked-with-concurrent-request": r.ColdConc, "auto-create-parked-with-concurrent-request": r.AutoRace,
-			"phase-2-fetches": r.Fetches > 0} {
+			"phase-2-fetches": r.Fetches > 0, "end-offset-update-failed": r.PubFailed} {
 			if on {
 				st.Class(name)
 			}
@@ -606,7 +635,7 @@ func c01hCheck(t *testing.T, focus string) {
 		nt := false
 		switch focus {
 		case "C01":
-			nt = (r.Failed && r.Concurrent) || r.AutoRace || (r.Crashed && len(r.Acks) > 0)
+			nt = (r.Failed && r.Concurrent) || r.AutoRace || (r.Crashed && len(r.Acks) > 0) || (r.PubFailed && len(r.Acks) > 0)
 		case "C05":
 			nt = r.PubParked || r.Failed || r.Crashed
 		case "C03":
